@@ -5,7 +5,15 @@ from efsim.spec import SERVER_CLASSES
 
 ZONES = ["Europe/Paris", "Europe/London", "America/New_York", "Asia/Kolkata", "Asia/Kathmandu",
          "Australia/Sydney", "Australia/Lord_Howe", "UTC", "Asia/Tokyo", "America/Sao_Paulo",
-         "Pacific/Apia", "Africa/Dakar", "America/St_Johns"]
+         "Pacific/Apia", "Africa/Dakar", "America/St_Johns", "fixed:330", "fixed:-210"]
+# ("fixed:<minutes>" is a pytz.FixedOffset: a time zone without a zone name)
+
+
+def timezone_of(zone):
+    import pytz
+    if zone.startswith("fixed:"):
+        return pytz.FixedOffset(int(zone.split(":")[1]))
+    return pytz.timezone(zone)
 # start instants biased towards DST transition days (EU 2025-03-30 / 2025-10-26, US 2025-03-09 / 2025-11-02,
 # AU 2025-04-06 / 2025-10-05) plus ordinary days
 STARTS = ["2025-01-01 00:00:00", "2025-03-29 18:00:00", "2025-10-25 19:00:00", "2025-03-08 20:00:00",
